@@ -178,6 +178,9 @@ impl Cx<'_> {
                 }
             }
             TsType::TsOptionalType(o) => Ty::Union(vec![self.ty(&o.type_ann)?, Ty::Undefined]),
+            // function and conditional types only come from `#[ts(type = "..")]` texts (the C05
+            // pieces): opaque here, nothing is ever asked about their values
+            TsType::TsFnOrConstructorType(_) | TsType::TsConditionalType(_) | TsType::TsInferType(_) => Ty::Any,
             other => return Err(format!("unsupported type syntax {:?}", std::mem::discriminant(other))),
         })
     }
